@@ -118,9 +118,13 @@ REF_KINDS = {
     "str": {"type": "string"},
     "date": {"type": "string", "format": "date"},
     "nested": {"type": "object", "properties": {"inner": {"type": "object", "properties": {"v": {"type": "number"}}}}},
+    # refers to the shared component Node, which refers to itself (the inline copy still names Node by reference)
+    # refers to itself (the inline copy still names the component Comp by reference)
+    "selfref": {"type": "object", "properties": {"v": {"type": "integer"}, "next": {"$ref": R + "Comp"}, "kids": {"type": "array", "items": {"$ref": R + "Comp"}}}},
 }
 REF_SAMPLES = {"object": [{"z": 1}, {"z": 2, "day": "2020-01-02", "x": 1}], "enum_str": ["a", "b"], "enum_int": [1, -2],
-               "array_obj": [[], [{"q": "s"}, {}]], "str": ["s"], "date": ["2020-01-02"], "nested": [{}, {"inner": {"v": 1.5}}]}
+               "array_obj": [[], [{"q": "s"}, {}]], "str": ["s"], "date": ["2020-01-02"], "nested": [{}, {"inner": {"v": 1.5}}],
+               "selfref": [{"v": 1, "kids": []}, {"v": 1, "next": {"v": 2, "kids": [], "next": {"kids": []}}, "kids": [{"v": 3, "kids": []}]}]}
 
 
 NAMING2 = {"plain": ("M", "Comp"), "suffix": ("Pet", "NewPet"), "prefix": ("ItemBase", "Item"), "suffix-rev": ("NewPet", "Pet")}
@@ -145,6 +149,13 @@ def doc_part2(pos, kind, inline, naming="plain", order="comp-first", siblings=Fa
 
 
 def _doc_part2(pos, kind, inline, siblings=False):
+    d = _doc_part2_(pos, kind, inline, siblings)
+    if d is not None and kind == "selfref":      # the inline copy still names Comp by reference: the component exists in both variants
+        d.setdefault("components", {}).setdefault("schemas", {}).setdefault("Comp", copy.deepcopy(REF_KINDS["selfref"]))
+    return d
+
+
+def _doc_part2_(pos, kind, inline, siblings=False):
     comp = copy.deepcopy(REF_KINDS[kind])
     sch = copy.deepcopy(comp) if inline else {"$ref": R + "Comp"}
     if siblings:
@@ -170,11 +181,11 @@ def _doc_part2(pos, kind, inline, siblings=False):
     elif pos == "addl":
         comps["M"] = {"type": "object", "additionalProperties": sch}
     elif pos == "allof":
-        if kind not in ("object", "nested"):
+        if kind not in ("object", "nested", "selfref"):
             return None
         comps["M"] = {"allOf": [sch, {"type": "object", "properties": {"own": {"type": "string"}}}]}
     elif pos == "param":
-        if kind in ("object", "array_obj", "nested"):
+        if kind in ("object", "array_obj", "nested", "selfref"):
             return None
         paths["/x"] = {"get": {"operationId": "theOp", "parameters": [{"name": "p", "in": "query", "required": True, "schema": sch}],
                                "responses": {"204": {"description": "n"}}}}
